@@ -6,6 +6,7 @@ import (
 	"go/token"
 	"go/types"
 	"math"
+	"os"
 	"strconv"
 	"strings"
 
@@ -164,6 +165,9 @@ func (w *Walker) Walk(fn *ssa.Function, args []*Term, bindings []*Term) []Path {
 			p.SymCells = append(p.SymCells, c)
 		}
 		paths = append(paths, p)
+		if os.Getenv("UHLINT_DEBUG") == "WALK" {
+			fmt.Fprintf(os.Stderr, "WALK %s #%d %s %s script=%v\n", fn.Name(), len(paths), p.Outcome, p.Detail, w.script)
+		}
 		if len(paths) >= w.MaxPaths {
 			w.Exploded = true
 			break
@@ -449,7 +453,7 @@ func (w *Walker) load(addr *Term, instr ssa.Instruction, fn *ssa.Function, depth
 		// storage of the caller (receiver, parameters): what its unexported fields can hold is known from the
 		// stores of the package (fieldfacts.go)
 		for _, s := range addr.Path {
-			if it, ok := w.symIdx[s]; ok && strings.HasPrefix(s, "#") && v.Op == "slicev" {
+			if it, ok := w.symIdx[s]; ok && strings.HasPrefix(s, "#") && v.Op != "zero" {
 				v = &Term{Op: "index", Args: []*Term{v, it}, Typ: elemType(v.Typ)}
 				continue
 			}
@@ -458,7 +462,7 @@ func (w *Walker) load(addr *Term, instr ssa.Instruction, fn *ssa.Function, depth
 		return w.dispatchIndex(v)
 	}
 	for _, s := range addr.Path {
-		if it, ok := w.symIdx[s]; ok && strings.HasPrefix(s, "#") && v.Op == "slicev" {
+		if it, ok := w.symIdx[s]; ok && strings.HasPrefix(s, "#") && v.Op != "zero" {
 			v = &Term{Op: "index", Args: []*Term{v, it}, Typ: elemType(v.Typ)}
 			continue
 		}
@@ -642,6 +646,7 @@ func isPureName(name string) bool {
 
 type frame struct {
 	steps     int
+	pinSteps  int
 	headerPos map[*ssa.BasicBlock]int // decision-script position at the last visit of a loop header
 	fn        *ssa.Function
 	env       map[ssa.Value]*Term
@@ -712,7 +717,10 @@ func (w *Walker) exec(fn *ssa.Function, args []*Term, bindings []*Term, depth in
 				w.loopCond = isLoopHeader(b)
 				if last, seen := fr.headerPos[b]; fr.headerPos != nil && seen && last != w.pos {
 					// a symbolic decision was taken during the last iteration: an ordinary, fuel-bounded loop
-				} else if _, isConst := c.BoolVal(); isConst && w.loopCond && fr.steps < 20000 {
+				} else if _, isConst := c.BoolVal(); isConst && (!c.Settled || (c.Pinned && fr.pinSteps < 64)) && w.loopCond && fr.steps < 20000 {
+					if c.Settled {
+						fr.pinSteps++ // a count the path condition has pinned to one value: as good as a constant, for short loops
+					}
 					// a loop whose condition folds to a constant (counting over a literal or a constant table) is not
 					// bounded by the fuel, which exists for loops over symbolic data
 					fr.visits[b]--
@@ -927,6 +935,13 @@ func (w *Walker) step(fr *frame, in ssa.Instruction) {
 			} else {
 				fr.env[x] = &Term{Op: "un", Name: "-", Args: []*Term{a}, Typ: x.Type()}
 			}
+		case token.XOR:
+			// ^c of a constant, in the operand's type (^T(0) is the all-ones value of T)
+			if n, ok := a.Int64(); ok && isIntType(x.Type()) {
+				fr.env[x] = wrapInt(^n, x.Type())
+			} else {
+				fr.env[x] = &Term{Op: "un", Name: x.Op.String(), Args: []*Term{a}, Typ: x.Type()}
+			}
 		default:
 			fr.env[x] = &Term{Op: "un", Name: x.Op.String(), Args: []*Term{a}, Typ: x.Type()}
 		}
@@ -977,6 +992,13 @@ func (w *Walker) step(fr *frame, in ssa.Instruction) {
 		base := w.val(fr, x.X)
 		idx := w.val(fr, x.Index)
 		if n, ok := idx.Int64(); ok {
+			if w.Finite && isStringType(base.Typ) && n >= 0 && (base.Op == "bin" || base.Op == "slice" || base.Op == "strv" || base.Op == "conv") {
+				// a character of a text assembled from pieces whose characters are known ("0"+s, s[a:b], string(bytes))
+				if cs, o := w.charsOf(base); o && int(n) < len(cs) {
+					fr.env[x] = cs[n]
+					break
+				}
+			}
 			fr.env[x] = project(base, fmt.Sprintf("#%d", n))
 		} else {
 			fr.env[x] = &Term{Op: "index", Args: []*Term{base, idx}, Typ: x.Type()}
@@ -1025,6 +1047,8 @@ func (w *Walker) step(fr *frame, in ssa.Instruction) {
 			// a length the path condition has pinned to one value (an assumed field count, a checked length)
 			if reg, has := w.state.Ints[ln.String()]; has && len(reg) == 1 && reg[0].Lo == reg[0].Hi {
 				n, ok = reg[0].Lo, true
+			} else if v, o := w.pinnedValue(ln); o {
+				n, ok = v, true
 			}
 		}
 		limit := int64(4096) // as large as the arrays a constant-size make compiles to
@@ -1189,6 +1213,27 @@ func wrapInt(n int64, t types.Type) *Term {
 	return mkInt(n, t)
 }
 
+// pinnedValue: the value of an integer expression all of whose leaves the path condition has pinned to one value
+// ((len(s)+1)/2 under len(s) == 1).
+func (w *Walker) pinnedValue(t *Term) (int64, bool) {
+	if t == nil || t.Op != "bin" || os.Getenv("UHLINT_NOPIN") != "" {
+		return 0, false
+	}
+	ls := leavesOf(t)
+	if len(ls) == 0 || len(ls) > 4 {
+		return 0, false
+	}
+	env := map[string]int64{}
+	for _, l := range ls {
+		reg, has := w.state.Ints[l.String()]
+		if !has || len(reg) != 1 || reg[0].Lo != reg[0].Hi {
+			return 0, false
+		}
+		env[l.String()] = reg[0].Lo
+	}
+	return evalEnv(t, env)
+}
+
 func (w *Walker) convert(v *Term, from, to types.Type) *Term {
 	if isIntType(from) && isIntType(to) {
 		if n, ok := v.Int64(); ok {
@@ -1216,6 +1261,30 @@ func (w *Walker) binop(op token.Token, a, b *Term, t types.Type) *Term {
 		if a.IsConst() && b.IsConst() {
 			if r, ok := foldCmp(op, a, b); ok {
 				return mkBool(r)
+			}
+		}
+		// a comparison with a constant that the path condition has already settled (b == 1 under b in {1})
+		if w.state != nil && os.Getenv("UHLINT_NOFOLD") == "" {
+			x, k, o := a, b, op
+			if a.IsConst() && !b.IsConst() {
+				x, k, o = b, a, flipOp(op)
+			}
+			if n, ok := k.Int64(); ok && !x.IsConst() && isIntType(x.Typ) {
+				if cur, has := w.state.Ints[x.String()]; has {
+					sat := cur.Intersect(satisfying(o, n))
+					uns := cur.Intersect(satisfying(negOp(o), n))
+					pinned := len(cur) == 1 && cur[0].Lo == cur[0].Hi
+					switch {
+					case uns.Empty() && !sat.Empty():
+						t := mkBool(true)
+						t.Settled, t.Pinned = true, pinned
+						return t
+					case sat.Empty() && !uns.Empty():
+						t := mkBool(false)
+						t.Settled, t.Pinned = true, pinned
+						return t
+					}
+				}
 			}
 		}
 		return &Term{Op: "cmp", Name: op.String(), Args: []*Term{a, b}, Typ: types.Typ[types.Bool]}
@@ -1259,6 +1328,23 @@ func (w *Walker) binop(op token.Token, a, b *Term, t types.Type) *Term {
 			return mkConst(constant.BinaryOp(a.C, token.ADD, b.C), t)
 		}
 	}
+	// identities of the bit operations: x|0, 0|x, x<<0, x>>0 (what a loop that assembles an integer from its bytes
+	// produces for the first byte)
+	if isIntType(t) {
+		switch op {
+		case token.OR:
+			if n, ok := a.Int64(); ok && n == 0 && b.Typ != nil && types.Identical(b.Typ, t) {
+				return b
+			}
+			if n, ok := b.Int64(); ok && n == 0 && a.Typ != nil && types.Identical(a.Typ, t) {
+				return a
+			}
+		case token.SHL, token.SHR:
+			if n, ok := b.Int64(); ok && n == 0 && a.Typ != nil && types.Identical(a.Typ, t) {
+				return a
+			}
+		}
+	}
 	return &Term{Op: "bin", Name: op.String(), Args: []*Term{a, b}, Typ: t}
 }
 
@@ -1287,6 +1373,26 @@ func foldCmp(op token.Token, a, b *Term) (bool, bool) {
 }
 
 func (w *Walker) indexAddr(base, idx *Term, x *ssa.IndexAddr, fn *ssa.Function, depth int) *Term {
+	// s[lo:hi][i] is the element s[lo+i] of the underlying storage (whether i is inside the view is P1's concern)
+	if base.Op == "slice" && len(base.Args) >= 2 && base.Args[0] != nil && !isStringType(base.Args[0].Typ) {
+		nidx := idx
+		if lo := base.Args[1]; lo != nil {
+			if n, ok := lo.Int64(); ok && n == 0 {
+				// x[0:hi][i]
+			} else if n, ok := idx.Int64(); ok && n == 0 {
+				nidx = lo
+			} else {
+				nidx = w.binop(token.ADD, lo, idx, types.Typ[types.Int])
+			}
+		}
+		return w.indexAddr(base.Args[0], nidx, x, fn, depth)
+	}
+	if _, ok := idx.Int64(); !ok {
+		// an index the path condition has pinned to one value ((len(s)%2)/2 under len(s) == 1)
+		if v, o := w.pinnedValue(idx); o {
+			idx = mkInt(v, types.Typ[types.Int])
+		}
+	}
 	sel := ""
 	if n, ok := idx.Int64(); ok {
 		sel = fmt.Sprintf("#%d", n)
@@ -1350,6 +1456,13 @@ func (w *Walker) lookup(m, k *Term, x *ssa.Lookup) *Term {
 		if s, o := m.StrVal(); o {
 			if n, o2 := k.Int64(); o2 && n >= 0 && int(n) < len(s) {
 				v = mkInt(int64(s[n]), types.Typ[types.Uint8])
+			}
+		}
+	case w.Finite && isStringType(m.Typ) && (m.Op == "bin" || m.Op == "slice" || m.Op == "strv" || m.Op == "conv"):
+		// a character of a text assembled from pieces whose characters are known ("0"+s, s[a:b], string(bytes))
+		if n, o2 := k.Int64(); o2 && n >= 0 {
+			if cs, o := w.charsOf(m); o && int(n) < len(cs) {
+				v = cs[n]
 			}
 		}
 	}
@@ -1873,6 +1986,11 @@ func (w *Walker) builtin(name string, args []*Term, in ssa.Instruction, rt types
 			if strings.HasPrefix(a.Name, "make(") && len(a.Args) == 1 {
 				return a.Args[0]
 			}
+		case "bin":
+			// len(a+b) of texts
+			if name == "len" && a.Name == "+" && isStringType(a.Typ) && len(a.Args) == 2 {
+				return w.binop(token.ADD, w.builtin("len", []*Term{a.Args[0]}, in, rt, fn, depth), w.builtin("len", []*Term{a.Args[1]}, in, rt, fn, depth), rt)
+			}
 		case "slice":
 			// len(x[lo:hi]) = hi-lo when both constant
 			if a.Args[2] != nil {
@@ -1884,6 +2002,18 @@ func (w *Walker) builtin(name string, args []*Term, in ssa.Instruction, rt types
 					}
 					if okl {
 						return mkInt(h-l, rt)
+					}
+				}
+				// len(x[e:e+c]) = c
+				if name == "len" && a.Args[1] != nil {
+					if h := a.Args[2]; h.Op == "bin" && h.Name == "+" && len(h.Args) == 2 {
+						lo := a.Args[1].String()
+						if c, ok := h.Args[1].Int64(); ok && c >= 0 && h.Args[0].String() == lo {
+							return mkInt(c, rt)
+						}
+						if c, ok := h.Args[0].Int64(); ok && c >= 0 && h.Args[1].String() == lo {
+							return mkInt(c, rt)
+						}
 					}
 				}
 			}
@@ -1994,7 +2124,7 @@ func (w *Walker) ElemsOf(t *Term) []*Term {
 		}
 		v := base.Cell.Val
 		for _, s := range base.Path {
-			if it, ok := w.symIdx[s]; ok && strings.HasPrefix(s, "#") && v.Op == "slicev" {
+			if it, ok := w.symIdx[s]; ok && strings.HasPrefix(s, "#") && v.Op != "zero" {
 				v = &Term{Op: "index", Args: []*Term{v, it}, Typ: elemType(v.Typ)}
 				continue
 			}
@@ -2038,6 +2168,9 @@ func srefElems(s *Term) []*Term {
 	lo, _ := s.Args[0].Int64()
 	hi, _ := s.Args[1].Int64()
 	var out []*Term
+	if hi-lo > 1<<16 {
+		panic(fmt.Sprintf("srefElems: %d elements of %s", hi-lo, s.Cell.Name))
+	}
 	for i := lo; i < hi; i++ {
 		out = append(out, project(s.Cell.Val, fmt.Sprintf("#%d", i)))
 	}
@@ -2251,6 +2384,15 @@ func (w *Walker) decideCmp(c *Term) bool {
 }
 
 func (w *Walker) decideIntConst(a *Term, op token.Token, n int64) bool {
+	// len(x)-c against n is len(x) against n+c: a length is in 0..2^62, so neither side can wrap
+	if a.Op == "bin" && (a.Name == "-" || a.Name == "+") && len(a.Args) == 2 && a.Args[0].Op == "len" {
+		if c, ok := a.Args[1].Int64(); ok && c > -(1<<31) && c < 1<<31 && n > -(1<<31) && n < 1<<31 {
+			if a.Name == "-" {
+				return w.decideIntConst(a.Args[0], op, n+c)
+			}
+			return w.decideIntConst(a.Args[0], op, n-c)
+		}
+	}
 	if w.Finite {
 		if leaf, sat, uns, ok := w.finiteSplit(a, op, n); ok {
 			lk := leaf.String()
@@ -2289,6 +2431,15 @@ func (w *Walker) decideIntConst(a *Term, op token.Token, n int64) bool {
 		cur = fullSet(a.Typ)
 		if a.Op == "len" {
 			cur = cur.Intersect(IntervalSet{{0, math.MaxInt64}})
+			// documented: IP.To4 returns nil or the 4-byte form, IP.To16 nil or the 16-byte form
+			if len(a.Args) == 1 && a.Args[0] != nil && a.Args[0].Op == "call" {
+				switch a.Args[0].Name {
+				case "(net.IP).To4":
+					cur = IntervalSet{{0, 0}, {4, 4}}
+				case "(net.IP).To16":
+					cur = IntervalSet{{0, 0}, {16, 16}}
+				}
+			}
 		}
 	}
 	sat := cur.Intersect(satisfying(op, n))
